@@ -11,7 +11,8 @@ local macro "evalm" : tactic => `(tactic|
   simp [execCore, exec, execOp, saveContext, pushFrame, tick, raise, raiseInner, throwVal, catchable, resetGuards,
     runHandler, runHandlerN, tickOr, pushVals, longjmp, thenTick, catchFinish, safeFinish, callFinish, leaveCall, safeCtx,
     restoreContext, popFrame, popN, popStack, afterCatch, popContext, limitBits, handlerRegs, masterVal, enterCall,
-    adjustArgs, framesOf, hasReturnTick, depthCheck, setRegister, topBody, topFinish, tmpFinish, loadFinish, dhookFinish])
+    adjustArgs, framesOf, hasReturnTick, depthCheck, setRegister, topBody, topFinish, tmpFinish, loadFinish, dhookFinish,
+    hbOffStep, hbFinish, verbFinish])
 
 def okInstalled : Res → Option (List String)
   | .ok m => some m.installed
@@ -42,10 +43,10 @@ theorem fixed_input_to_leaves_nothing :
 /-- the state in which an error arrives inside a master function that was safe_apply'd with two arguments but
     declares none (they were dropped on entry): the value stack is empty, one frame, one context -/
 def surplusErr : M :=
-  { vs := [], cs := [Frame.mk FK.function {}], ctxs := [Ctx.mk 2 0 0 0 0] }
+  { vs := [], cs := [Frame.mk FK.function {}], ctxs := [Ctx.mk 2 0 0 0 0 0] }
 
 def leakErr : M :=
-  { vs := [Slot.val, Slot.val], cs := [Frame.mk FK.function {}], ctxs := [Ctx.mk 1 0 0 0 0] }
+  { vs := [Slot.val, Slot.val], cs := [Frame.mk FK.function {}], ctxs := [Ctx.mk 1 0 0 0 0 0] }
 
 /-- the defect repaired by `fix: safe_apply() removes its arguments …`: with the context as saved (save_sp counts
     the two arguments) restore_context computes a negative pop count — the crash outcome -/
@@ -60,7 +61,7 @@ theorem fixed_safe_apply_surplus_recovers :
 
 /-- and the leak: one argument, one declared, error in the callee — as saved, the argument stays on the stack -/
 theorem prefix_safe_apply_leaks_argument :
-    okDepth (safeFinish (Ctx.mk 1 0 0 0 0) [] 1 (.err leakErr)) = some (1, 0, 0) := by
+    okDepth (safeFinish (Ctx.mk 1 0 0 0 0 0) [] 1 (.err leakErr)) = some (1, 0, 0) := by
   simp [okDepth, leakErr]; evalm
 
 /-- end to end through the model's (repaired) safe_apply: two arguments, none declared, the callee raises -/
@@ -86,7 +87,7 @@ def errChain : Res → Option Nat
 
 /-- the control stack is full (2 of 2 frames) and one error context exists -/
 def fullStack : M :=
-  { maxDepth := 2, cs := [Frame.mk FK.function {}, Frame.mk FK.function {}], ctxs := [Ctx.mk 0 0 0 0 0] }
+  { maxDepth := 2, cs := [Frame.mk FK.function {}, Frame.mk FK.function {}], ctxs := [Ctx.mk 0 0 0 0 0 0] }
 
 /-- a catch placed exactly where save_context refuses: the error "*Can't catch too deep recursion" leaves with the
     chain of one context it found — nothing was linked (a seeded change that linked before the test left 2 / a
@@ -107,7 +108,7 @@ def errLoadDepth : Res → Option Int
 /-- `throw()` goes straight to longjmp without `error_handler`: unlike an error, a thrown value caught by a catch
     does NOT reset the load-depth guard (observation recorded in notes/C05.md) -/
 def inCatchLoading : M :=
-  { loadDepth := 3, inMudlibHandler := true, cs := [Frame.mk FK.catch_ {}], ctxs := [Ctx.mk 0 0 0 0 0] }
+  { loadDepth := 3, inMudlibHandler := true, cs := [Frame.mk FK.catch_ {}], ctxs := [Ctx.mk 0 0 0 0 0 0] }
 
 theorem throw_does_not_reset_guards : errLoadDepth (throwVal "t" inCatchLoading) = some 3 := by
   simp [errLoadDepth, inCatchLoading]; evalm
@@ -136,5 +137,23 @@ theorem caught_throw_in_dhook_restores_guards :
 
 theorem error_resets_guards_example : errLoadDepth (raise "*e" inCatchLoading) = some 0 := by
   simp [errLoadDepth, inCatchLoading]; evalm
+
+/-- a heart beat that raises an error: recovered by the backend's own context (both stacks empty at the next poll point),
+    and error_handler has switched the heart beat of that object off -/
+def hbBoom : TopResult := runBackend (Prog.ofList [.heartBeat 5 0 (Prog.ofList [.raise "*boom"])]) 0 {}
+
+theorem heart_beat_error_switches_it_off :
+    hbBoom.result = "fault-top" ∧ hbBoom.after.hbOff = [5] ∧ hbBoom.after.hbCur = 0 ∧ hbBoom.after.vs.length = 0 ∧
+    hbBoom.after.cs.length = 0 := by
+  simp [hbBoom, runBackend, clearState, Prog.ofList]; evalm
+
+/-- … and an error inside a safe apply made from heart_beat() switches it off as well, although heart_beat() goes on
+    (error_handler does not look at which context receives the error) -/
+def hbSafeBoom : TopResult :=
+  runBackend (Prog.ofList [.heartBeat 5 0 (Prog.ofList [.safeApply 0 0 (Prog.ofList [.raise "*boom"]), .say "after"])]) 0 {}
+
+theorem safe_apply_error_in_heart_beat_switches_it_off :
+    hbSafeBoom.result = "done be" ∧ hbSafeBoom.after.hbOff = [5] := by
+  simp [hbSafeBoom, runBackend, clearState, Prog.ofList]; evalm
 
 end NV.C05
